@@ -214,7 +214,7 @@ func RunC03TypedMirror(ctx *core.Ctx) {
 			r := ctx.Rand("c03/typedmirror/" + e.Name)
 			for k := 0; k < ncases; k++ {
 				n := []int{1, 2, 3, 7, 63, 64, 65, 66, 127, 128, 129, 130, 200, 321}[r.Intn(14)]
-				prof := &gen.Profile{NullProb: []float64{0.1, 0.5, 0.9}[r.Intn(3)], MaxLen: 1 + r.Intn(4), SmallDomain: r.Intn(3) == 0}
+				prof := &gen.Profile{NullProb: []float64{0.1, 0.5, 0.9}[r.Intn(3)], MaxLen: 1 + r.Intn(4), SmallDomain: r.Intn(3) == 0, TagNulls: true}
 				if r.Intn(2) == 0 {
 					prof.RunLen = []int{3, 30, 64, 70}[r.Intn(4)]
 				}
